@@ -71,6 +71,8 @@ class IdealReservoir:
             kt_h2 = mesh_ratio * alpha_scaled
             a_matrix = _build_matrix(kt_h2)
             pseudopressure[i + 1], _ = sparse.linalg.bicgstab(a_matrix, b, atol=_ATOL)
+        # a recovery cached from an earlier run does not belong to these results
+        self.__dict__.pop("recovery", None)
         self.pseudopressure = pseudopressure
 
     def recovery_factor(self, time: ndarray | None = None, density=False) -> ndarray:
@@ -212,6 +214,8 @@ class SinglePhaseReservoir(IdealReservoir):
             kt_h2 = mesh_ratio * alpha_scaled
             a_matrix = _build_matrix(kt_h2)
             pseudopressure[i + 1], _ = sparse.linalg.bicgstab(a_matrix, b, atol=_ATOL)
+        # a recovery cached from an earlier run does not belong to these results
+        self.__dict__.pop("recovery", None)
         self.pseudopressure = pseudopressure
 
 
